@@ -284,6 +284,7 @@ type Sim struct {
 	ReleaseLog []string
 
 	statMu   sync.Mutex // only contended in the free-running race mode
+	deferred *Violation
 	taskSeq  int
 	inOnPark bool
 	Preempts int
@@ -306,6 +307,17 @@ func (m *Sim) Logf(format string, a ...interface{}) {
 	}
 }
 
+// FailLater records a violation found on a goroutine of the system under test
+// (where a panic would kill the process); the driver raises it at the next
+// quiescent point.
+func (m *Sim) FailLater(rule, site, format string, a ...interface{}) {
+	m.statMu.Lock()
+	if m.deferred == nil {
+		m.deferred = &Violation{Rule: rule, Site: site, Detail: fmt.Sprintf(format, a...)}
+	}
+	m.statMu.Unlock()
+}
+
 // Fail reports a violation: it never returns.
 func (m *Sim) Fail(rule, site, format string, a ...interface{}) {
 	panic(&Violation{Rule: rule, Site: site, Detail: fmt.Sprintf(format, a...)})
@@ -320,6 +332,9 @@ func (m *Sim) Settle() {
 	for {
 		synctest.Wait()
 		m.S.steps.Add(1)
+		if m.deferred != nil {
+			panic(m.deferred)
+		}
 		if m.AfterStep != nil {
 			m.AfterStep()
 		}
